@@ -80,6 +80,7 @@ func mirrorE2EMain(args mon.Args) {
 			}
 		}()
 		cs0, rb0 := udpSnmp("InCsumErrors"), udpSnmp("RcvbufErrors")
+		g2 := mon.NewRNG(run.Seed, "e2e-mirror-stop", pi)
 		bindV4 := pi%2 == 1
 		// the two protocols get their own maximum datagram size; in three of four processes they differ
 		sizes := [][2]int{{1500, 1500}, {512, 2048}, {2048, 512}, {1500, 9000}}[pi%4]
@@ -272,8 +273,33 @@ func mirrorE2EMain(args mon.Args) {
 		if pi == 0 {
 			run.Sample(map[string]interface{}{"scenario": desc, "sent": len(all), "received_by_third_party": len(got)})
 		}
+		// the stop: exporters do not know about it and keep sending across the shutdown window. "Mirroring never
+		// crashes the collector" includes the second in which the collector winds down with the mirror path live.
+		stopSend := make(chan struct{})
+		sendDone := make(chan struct{})
+		go func() {
+			defer close(sendDone)
+			for k := 0; ; k++ {
+				select {
+				case <-stopSend:
+					return
+				default:
+				}
+				proto := []string{"ipfix", "sflow"}[k%2]
+				snd.send(net.IPv4(127, byte(20+pi), 9, byte(1+k%200)).To4(), ports[proto], g2.Bytes(40+k%300))
+				time.Sleep(time.Millisecond)
+			}
+		}()
+		time.Sleep(60 * time.Millisecond)
 		col.cmd.Process.Signal(syscall.SIGTERM)
-		col.wait(10 * time.Second)
+		werr, exited := col.wait(10 * time.Second)
+		close(stopSend)
+		<-sendDone
+		if ct := crashText(col.stderr()); ct != "" {
+			run.Violation("e2e-mirror:crash-during-shutdown", fmt.Sprintf("%s: the collector crashed while it was stopped with datagrams still arriving and mirroring enabled: %s", desc, clip(ct, 500)), wit("crash during shutdown"))
+		} else if exited && werr != nil {
+			run.Violation("e2e-mirror:exit-status", fmt.Sprintf("%s: exit status after SIGTERM under traffic with mirroring enabled: %v", desc, werr), wit("exit status"))
+		}
 		col.kill()
 		sink.close()
 		lc.Close()
